@@ -15,6 +15,15 @@ use serde_json::json;
 use std::collections::{BTreeMap, BTreeSet};
 use std::panic::{catch_unwind, AssertUnwindSafe};
 
+#[path = "c16_script.rs"]
+mod script;
+#[path = "c16_shape.rs"]
+mod shape;
+
+/// the model's shape table (`Grammar.shapeRows table / luaTable`, `familyRows`), generated from the Lean
+/// model by tools/gen_c16_shapes.py and compared with the live model on every run (SH / FA ops)
+const MODEL_SHAPES: &str = include_str!("c16_shapes.txt");
+
 // ---------------------------------------------------------------------------------------------
 // canonical printer of a `Command` (constructor + flattened fields; mirrors `Grammar.Cmd`)
 // ---------------------------------------------------------------------------------------------
@@ -945,7 +954,10 @@ impl Ctx {
                     let da = dumps(&mut ex_direct);
                     let dl = lua_dumps.get_or_insert_with(|| dumps(&mut ex_lua)).clone();
                     if !same_reply {
-                        let class = if contains_nil(rd) && show_resp(&model_conv(rd)) == show_resp(&rl) { "C16:lua:array-with-nil-truncated".to_string() } else { format!("C16:lua:reply-differs:{}", name) };
+                        // the model of the current code proves that NO command of the translator's table answers an array
+                        // that contains a nil (`translator_replies_conv_stable`): such a reply is not the recorded
+                        // conversion finding (which needs a script that builds the array itself) but a new difference
+                        let class = if contains_nil(rd) && show_resp(&model_conv(rd)) == show_resp(&rl) { format!("C16:lua:translator-command-reply-contains-nil:{}", name) } else { format!("C16:lua:reply-differs:{}", name) };
                         self.out.violation(&class, "the reply of a command run through redis.pcall differs from the reply of the same command sent directly (after the documented conversion)",
                             replay("lua-reply", json!({"primed_state": PRIMED, "direct_reply": show_resp(rd), "lua_reply": show_resp(&rl)})));
                     }
@@ -1080,6 +1092,78 @@ fn float_sweep(cx: &mut Ctx, rng: &mut Rng, n: u64) {
             s.push_str(&e.to_string());
         }
         emit(cx, s.as_bytes());
+    }
+}
+
+/// a Lua float of ANY value returned by a script (`lua_to_resp`: `n as i64`) against `LuaConv.f64ToI64` on the bit
+/// pattern: fractions (both signs), ±0, subnormals, the neighbourhood of ±2^63 and ±2^53, infinities, NaNs, random
+/// bit patterns; the double reaches the script byte-exactly through ARGV and `string.unpack`
+fn float_reply_sweep(cx: &mut Ctx, rng: &mut Rng, n: u64) {
+    let mut vals: Vec<u64> = vec![
+        3.7f64.to_bits(), (-3.7f64).to_bits(), 0.5f64.to_bits(), (-0.99f64).to_bits(), 0f64.to_bits(), (-0f64).to_bits(), 5f64.to_bits(), 1e20f64.to_bits(), (-1e20f64).to_bits(),
+        f64::INFINITY.to_bits(), f64::NEG_INFINITY.to_bits(), f64::NAN.to_bits(), 0x7ff0000000000001, 0xfff8000000000000, 1, 0x8000000000000001, 0x000fffffffffffff, 0x0010000000000000,
+        f64::MAX.to_bits(), f64::MIN.to_bits(), 1.5e300f64.to_bits(),
+    ];
+    for base in [9223372036854775808f64, 9007199254740992f64, 4294967296f64, 1f64, 2f64] {
+        let b = base.to_bits();
+        for d in [-2i64, -1, 0, 1, 2] {
+            vals.push((b as i64 + d) as u64);
+            vals.push(((b as i64 + d) as u64) | (1u64 << 63));
+        }
+    }
+    for _ in 0..n {
+        let exp = match rng.below(4) { 0 => rng.range(1015, 1030), 1 => rng.range(1070, 1090), 2 => rng.below(2048), _ => rng.range(1023, 1086) };
+        let bits = (rng.below(2) << 63) | (exp << 52) | (rng.next() & ((1u64 << 52) - 1));
+        vals.push(bits);
+    }
+    for bits in vals {
+        let x = f64::from_bits(bits);
+        let mut ex = CommandExecutor::new();
+        let r = eval(&mut ex, "return (string.unpack('<d', ARGV[1]))", &vec![x.to_le_bytes().to_vec()]);
+        let line = match &r { Ok(v) => show_resp(v), Err(()) => "crash".to_string() };
+        cx.out.op(format!("N2I {:016x}", bits), line.clone());
+        cx.out.count("float-reply");
+        // Redis documents: a Lua number becomes an integer reply with the fraction dropped
+        if x.is_finite() && x.abs() < 9.0e18 {
+            if line != format!(":{}", x.trunc() as i64) {
+                cx.out.violation("C16:lua:float-reply-not-truncated", "a finite Lua float inside the i64 range returned by a script is not answered as the integer with the fraction dropped", json!({"bits": format!("{:016x}", bits), "value": format!("{:e}", x), "reply": line}));
+            }
+        }
+        cx.out.case(&format!("N2I {:016x}", bits), true);
+    }
+}
+
+/// integer literals: `str::parse::<i64 / u64 / u32>` against `parseI64` / `parseUnsigned` (accepted language,
+/// value and — unsigned — the error kind), on the boundary numerals and on random strings over the alphabet
+/// that matters (digits, signs, the characters other number syntaxes use)
+fn int_sweep(cx: &mut Ctx, rng: &mut Rng, n: u64) {
+    use std::num::IntErrorKind;
+    let emit = |cx: &mut Ctx, raw: &[u8]| {
+        let s = String::from_utf8_lossy(raw).to_string();
+        let i = match s.parse::<i64>() { Ok(v) => format!("i{}", v), Err(_) => "none".to_string() };
+        cx.out.op(format!("I {}", hex(s.as_bytes())), i);
+        let kind = |k: &IntErrorKind| match k { IntErrorKind::Empty => "empty", IntErrorKind::InvalidDigit => "invalid", IntErrorKind::PosOverflow => "overflow", _ => "other" }.to_string();
+        let u = match s.parse::<u64>() { Ok(v) => format!("n{}", v), Err(e) => kind(e.kind()) };
+        cx.out.op(format!("U64 {}", hex(s.as_bytes())), u);
+        let w = match s.parse::<u32>() { Ok(v) => format!("n{}", v), Err(e) => kind(e.kind()) };
+        cx.out.op(format!("U32 {}", hex(s.as_bytes())), w);
+        cx.out.count(if s.parse::<i64>().is_ok() { "int:accepted" } else { "int:rejected" });
+    };
+    for s in NUMS { emit(cx, s.as_bytes()); }
+    for base in ["9223372036854775807", "9223372036854775808", "18446744073709551615", "18446744073709551616", "4294967295", "4294967296"] {
+        for pre in ["", "+", "-", "0", "00", "+0", "-0", "++", "+-", " "] {
+            for suf in ["", "0", "x", " ", "_", "."] { emit(cx, format!("{}{}{}", pre, base, suf).as_bytes()); }
+        }
+    }
+    const ALPHA: &[u8] = b"00112233445566778899+-_ .exXa\xff";
+    for _ in 0..n {
+        let len = if rng.chance(1, 3) { rng.below(4) } else { rng.below(23) };
+        let mut v: Vec<u8> = Vec::new();
+        if rng.chance(1, 3) { v.push(*rng.pick(&[b'+', b'-'])); }
+        for _ in 0..len {
+            v.push(if rng.chance(9, 10) { b'0' + rng.below(10) as u8 } else { *rng.pick(ALPHA) });
+        }
+        emit(cx, &v);
     }
 }
 
@@ -1420,6 +1504,59 @@ fn nonbulk(cx: &mut Ctx, rng: &mut Rng) {
     }
 }
 
+/// element frames, systematically: every shape (with and without options), every position (the command name and
+/// the sub-command included) x an integer (0, 5, -1, i64::MAX, i64::MIN), a nil bulk, a simple string, an error, a
+/// nested array in that position — through both RESP parsers and the model's `parseE` (`PE` op)
+fn elem_sweep(cx: &mut Ctx, rng: &mut Rng) {
+    #[derive(Clone)]
+    enum El { B(Vec<u8>), I(i64), Nil, S, E, A }
+    let to_sim = |e: &El| match e {
+        El::B(b) => RespValue::BulkString(Some(b.clone())),
+        El::I(i) => RespValue::Integer(*i),
+        El::Nil => RespValue::BulkString(None),
+        El::S => RespValue::SimpleString("OK".into()),
+        El::E => RespValue::Error("ERR x".into()),
+        El::A => RespValue::Array(Some(vec![RespValue::BulkString(Some(b"GET".to_vec()))])),
+    };
+    let to_zc = |e: &El| match e {
+        El::B(b) => RespValueZeroCopy::BulkString(Some(Bytes::from(b.clone()))),
+        El::I(i) => RespValueZeroCopy::Integer(*i),
+        El::Nil => RespValueZeroCopy::BulkString(None),
+        El::S => RespValueZeroCopy::SimpleString(Bytes::from_static(b"OK")),
+        El::E => RespValueZeroCopy::Error(Bytes::from_static(b"ERR x")),
+        El::A => RespValueZeroCopy::Array(Some(vec![RespValueZeroCopy::BulkString(Some(Bytes::from_static(b"GET")))])),
+    };
+    let show = |e: &El| match e { El::B(b) => hex(b), El::I(i) => format!(":{}", i), _ => "~".to_string() };
+    let line = |r: Result<Result<Command, String>, ()>| match r {
+        Ok(Ok(c)) => canon(&c),
+        Ok(Err(e)) => format!("ERR {}", hex(e.as_bytes())),
+        Err(()) => "crash".to_string(),
+    };
+    let variants = [El::I(0), El::I(5), El::I(-1), El::I(i64::MAX), El::I(i64::MIN), El::Nil, El::S, El::E, El::A];
+    for sh in SHAPES {
+        for with_opts in [false, true] {
+            let mut f = base_frame(rng, sh, 0);
+            if with_opts { add_options(rng, sh, &mut f); f.push(slot(rng, 'I')); }
+            for pos in 0..f.len() {
+                for v in &variants {
+                    let mut els: Vec<El> = f.iter().cloned().map(El::B).collect();
+                    els[pos] = v.clone();
+                    let a = line(quiet_panics(|| Command::from_resp(&RespValue::Array(Some(els.iter().map(to_sim).collect())))));
+                    let b = line(quiet_panics(|| Command::from_resp_zero_copy(&RespValueZeroCopy::Array(Some(els.iter().map(to_zc).collect())))));
+                    let op = format!("PE {}", els.iter().map(show).collect::<Vec<_>>().join(" "));
+                    cx.out.op(op.clone(), a.clone());
+                    cx.out.count("elem-frame");
+                    if a != b {
+                        cx.out.violation(&format!("C16:parsers-differ:element:{}", sh.name), "from_resp and from_resp_zero_copy disagree on a command array with an element that is not a bulk string",
+                            json!({"elements": els.iter().map(show).collect::<Vec<_>>(), "position": pos, "from_resp": a, "from_resp_zero_copy": b}));
+                    }
+                    cx.out.case(&op, true);
+                }
+            }
+        }
+    }
+}
+
 /// every command x option combination the translator accepts, on every primed key (with and
 /// without a TTL, every type, and a missing key): the effect on values AND remaining TTLs must be
 /// the one of the direct path
@@ -1597,6 +1734,220 @@ fn source_enumeration(cx: &mut Ctx) {
         "repo": dir, "from_resp_names": sim.names.len(), "zero_copy_names": zc.names.len(), "translator_names": lua.names.len(),
         "names_without_translator_arm": only_resp,
         "keywords_per_command": sim.kws.iter().filter(|(_, v)| !v.is_empty()).map(|(k, v)| (k.clone(), v.iter().cloned().collect::<Vec<_>>())).collect::<BTreeMap<_, _>>(),
+    }));
+}
+
+fn unhex(h: &str) -> String {
+    let b: Vec<u8> = (1..h.len()).step_by(2).filter_map(|i| u8::from_str_radix(h.get(i..i + 2)?, 16).ok()).collect();
+    String::from_utf8_lossy(&b).to_string()
+}
+
+/// a field value with its hex texts decoded, for replay files
+fn readable(v: &str) -> String {
+    let mut out = String::new();
+    let mut rest = v;
+    while let Some(i) = rest.find('x') {
+        let tail = &rest[i + 1..];
+        let n = tail.bytes().take_while(|c| c.is_ascii_hexdigit() && !c.is_ascii_uppercase()).count();
+        let boundary_ok = i == 0 || !rest.as_bytes()[i - 1].is_ascii_alphanumeric();
+        if boundary_ok && n >= 2 && n % 2 == 0 {
+            out.push_str(&rest[..i]);
+            out.push_str(&format!("{:?}", unhex(&rest[i..i + 1 + n])));
+            rest = &rest[i + 1 + n..];
+        } else {
+            out.push_str(&rest[..i + 1]);
+            rest = tail;
+        }
+    }
+    out.push_str(rest);
+    out
+}
+
+/// a shape difference names a command and two descriptor values; the integer literals in them (arity bounds,
+/// thresholds of extra guards) are where a concrete differing frame is to be found: frames of the command with
+/// element counts around every such literal go through the three-way oracle
+fn shape_guided_search(cx: &mut Ctx, name: &str, values: &[&str]) {
+    let top = name.split('.').next().unwrap_or(name);
+    let sub = name.split('.').nth(1);
+    let sh = match shape_of(top) { Some(s) => s, None => return };
+    let mut lens: BTreeSet<usize> = BTreeSet::new();
+    for v in values {
+        let mut cur = String::new();
+        for c in v.chars().chain(std::iter::once(' ')) {
+            if c.is_ascii_digit() { cur.push(c); } else {
+                if let Ok(n) = cur.parse::<usize>() { if n <= 20000 { for d in 0..4usize { lens.insert((n + d).saturating_sub(1)); } } }
+                cur.clear();
+            }
+        }
+    }
+    let tmpl: Vec<char> = sh.tmpl.chars().collect();
+    for total in lens {
+        if total == 0 { continue; }
+        let mut f: Frame = vec![top.as_bytes().to_vec()];
+        if let Some(sw) = sub { f.push(sw.as_bytes().to_vec()); }
+        let mut k = 0usize;
+        while f.len() < total {
+            let c = if tmpl.is_empty() { 'V' } else if k < tmpl.len() { tmpl[k] } else if tmpl.len() == 1 { tmpl[0] } else { tmpl[1 + (k - tmpl.len()) % (tmpl.len() - 1)] };
+            f.push(match c { 'K' => format!("k{}", k).into_bytes(), 'I' | 'U' => b"1".to_vec(), 'F' => b"1.5".to_vec(), _ => format!("v{}", k).into_bytes() });
+            k += 1;
+        }
+        cx.check_frame(&f, "shape-guided");
+    }
+}
+
+/// shape descriptors translated from the match arms of the three grammars, against each other and against
+/// the model's shape table
+fn shape_check(cx: &mut Ctx) {
+    // (0) the embedded copy of the model's table is the live model's table
+    let mut model: BTreeMap<&str, Vec<shape::Row>> = BTreeMap::new();
+    for (tag, op) in [("R", "SH R"), ("L", "SH L"), ("F", "FA"), ("H", "HL")] {
+        let lines: Vec<&str> = MODEL_SHAPES.lines().filter(|l| l.starts_with(tag) && l.as_bytes().get(1) == Some(&b' ')).map(|l| &l[2..]).collect();
+        for (i, l) in lines.iter().enumerate() {
+            cx.out.op(format!("{} {}", op, i), l.to_string());
+        }
+        cx.out.op(format!("{} {}", op, lines.len()), "end".to_string());
+        model.insert(tag, lines.iter().map(|l| shape::parse_row(l)).collect());
+    }
+    let model_default = MODEL_SHAPES.lines().find(|l| l.starts_with("D ")).map(|l| l[2..].to_string()).unwrap_or_default();
+    cx.out.op("DF".to_string(), model_default.clone());
+    let dir = repo_dir();
+    let read = |rel: &str| std::fs::read_to_string(format!("{}/{}", dir, rel)).unwrap_or_default();
+    let sim = shape::extract(&read("src/redis/parser.rs"), "from_resp", shape::Style::Resp);
+    let zc = shape::extract(&read("src/redis/commands.rs"), "from_resp_zero_copy", shape::Style::Resp);
+    let lua = shape::extract(&read("src/redis/executor/script_ops.rs"), "parse_lua_command_bytes", shape::Style::Lua);
+    if sim.rows.len() < 100 || zc.rows.len() < 100 || lua.rows.len() < 30 || sim.families.len() < 5 {
+        cx.out.violation("C16:source:shape-scan-failed", "the match arms of the three grammars could not be translated into shape descriptors (layout changed?): the shape table is no longer compared with the source",
+            json!({"repo": dir, "from_resp_rows": sim.rows.len(), "zero_copy_rows": zc.rows.len(), "translator_rows": lua.rows.len(), "families": sim.families.len(), "problems": [sim.problems, zc.problems, lua.problems]}));
+        return;
+    }
+    const FIELDS: &[&str] = &["arity", "aerr", "ctor", "slots", "opt", "tail", "opts", "unk", "flits", "checks"];
+    let by_name = |rows: &[shape::Row]| -> BTreeMap<String, shape::Row> { rows.iter().map(|r| (r.get("name").cloned().unwrap_or_default(), r.clone())).collect() };
+    let mut unrecognised: BTreeSet<String> = BTreeSet::new();
+    let mut compared = 0u64;
+    // (i) the two RESP parsers, every field (also the source-only ones: all literals, compared words, conditions)
+    let (a, b) = (by_name(&sim.rows), by_name(&zc.rows));
+    for n in a.keys().chain(b.keys()).collect::<BTreeSet<_>>() {
+        match (a.get(n), b.get(n)) {
+            (Some(x), Some(y)) => {
+                for (f, vx) in x {
+                    let vy = y.get(f).cloned().unwrap_or_default();
+                    if (vx.contains('?') || vy.contains('?')) && FIELDS.contains(&f.as_str()) {
+                        unrecognised.insert(format!("parsers:{}:{}", n, f));
+                        continue;
+                    }
+                    compared += 1;
+                    if *vx != vy {
+                        cx.out.violation(&format!("C16:source:parsers-shape-differs:{}:{}", n, f), "the match arms of from_resp and from_resp_zero_copy for this command translate to different shape descriptors",
+                            json!({"command": n, "field": f, "from_resp": readable(vx), "from_resp_zero_copy": readable(&vy)}));
+                    }
+                }
+            }
+            _ => cx.out.violation(&format!("C16:source:parsers-shape-differs:{}:row", n), "a command (or sub-command) arm exists in one RESP parser only", json!({"command": n, "in_from_resp": a.contains_key(n), "in_from_resp_zero_copy": b.contains_key(n)})),
+        }
+    }
+    let (fa, fb) = (by_name(&sim.families), by_name(&zc.families));
+    if fa != fb {
+        cx.out.violation("C16:source:parsers-shape-differs:families", "the sub-command families of from_resp and from_resp_zero_copy differ (names, text of a missing sub-command, answer to an unknown sub-command)", json!({"from_resp": fa, "from_resp_zero_copy": fb}));
+    }
+    // (ii) source against the model's shape table
+    for (grammar, src, tag) in [("resp", &sim, "R"), ("lua", &lua, "L")] {
+        let s = by_name(&src.rows);
+        let m = by_name(&model[tag]);
+        for n in s.keys().chain(m.keys()).collect::<BTreeSet<_>>() {
+            match (s.get(n), m.get(n)) {
+                (Some(x), Some(y)) => {
+                    for f in FIELDS {
+                        let (vx, vy) = (x.get(*f).cloned().unwrap_or_default(), y.get(*f).cloned().unwrap_or_default());
+                        if vx.contains('?') {
+                            unrecognised.insert(format!("{}:{}:{}", grammar, n, f));
+                            continue;
+                        }
+                        compared += 1;
+                        if !shape::field_eq(f, &vx, &vy) {
+                            cx.out.violation(&format!("C16:source:shape:{}:{}:{}", grammar, n, f), "the shape descriptor translated from the command's match arm differs from the row of the model's shape table (which is proved to be the model grammar: parse_is_generic)",
+                                json!({"grammar": grammar, "command": n, "field": f, "source": readable(&vx), "model": readable(&vy), "source_row": x, "model_row": y}));
+                        }
+                    }
+                }
+                _ => cx.out.violation(&format!("C16:source:shape:{}:{}:row", grammar, n), "a command (or sub-command) arm of the source has no row in the model's shape table, or the reverse", json!({"grammar": grammar, "command": n, "in_source": s.contains_key(n), "in_model": m.contains_key(n)})),
+            }
+        }
+    }
+    let mf = by_name(&model["F"]);
+    for n in fa.keys().chain(mf.keys()).collect::<BTreeSet<_>>() {
+        match (fa.get(n), mf.get(n)) {
+            (Some(x), Some(y)) => {
+                for f in ["aerr", "probe"] {
+                    let (vx, vy) = (x.get(f).cloned().unwrap_or_default(), y.get(f).cloned().unwrap_or_default());
+                    if vx.contains('?') { unrecognised.insert(format!("resp:{}:{}", n, f)); continue; }
+                    compared += 1;
+                    if vx != vy {
+                        cx.out.violation(&format!("C16:source:shape:resp:{}:family-{}", n, f), "the family arm of the source differs from the model's family entry (text of a missing sub-command / answer to an unknown sub-command)",
+                            json!({"family": n, "field": f, "source": readable(&vx), "model": readable(&vy)}));
+                    }
+                }
+            }
+            _ => cx.out.violation(&format!("C16:source:shape:resp:{}:family-row", n), "a sub-command family exists in the source only or in the model only", json!({"family": n, "in_source": fa.contains_key(n), "in_model": mf.contains_key(n)})),
+        }
+    }
+    // a shape difference is a pointer to inputs: search them for a concrete differing frame
+    let targets: Vec<(String, Vec<String>)> = cx.out.oracle.iter().filter_map(|v| {
+        let sig = v["signature"].as_str()?;
+        if !(sig.starts_with("C16:source:parsers-shape-differs:") || sig.starts_with("C16:source:shape:")) { return None; }
+        let r = &v["replay"];
+        let name = r["command"].as_str()?.to_string();
+        let mut vals: Vec<String> = ["from_resp", "from_resp_zero_copy", "source", "model"].iter().filter_map(|k| r[*k].as_str().map(|s| s.to_string())).collect();
+        // the conditions of the command's arms carry the thresholds
+        for rows in [&a, &b] {
+            if let Some(c) = rows.get(&name).and_then(|row| row.get("conds")) { vals.push(c.clone()); }
+        }
+        Some((name, vals))
+    }).collect();
+    for (name, vals) in targets {
+        let refs: Vec<&str> = vals.iter().map(|s| s.as_str()).collect();
+        shape_guided_search(cx, &name, &refs);
+    }
+    // the extract helpers and the arm of a name without a table entry
+    let (ha, hb, hm) = (by_name(&sim.helpers), by_name(&zc.helpers), by_name(&model["H"]));
+    if ha != hb {
+        cx.out.violation("C16:source:parsers-shape-differs:extract-helpers", "the extract helpers of the two RESP parsers differ (parsed type, error texts)", json!({"from_resp": ha, "from_resp_zero_copy": hb}));
+    }
+    for n in ha.keys().chain(hm.keys()).collect::<BTreeSet<_>>() {
+        match (ha.get(n), hm.get(n)) {
+            (Some(x), Some(y)) => for f in ["ty", "perr"] {
+                compared += 1;
+                if x.get(f) != y.get(f) {
+                    cx.out.violation(&format!("C16:source:shape:resp:{}:{}", n, f), "an extract helper of the RESP parsers differs from the slot kind that models it (parsed type / text of a parse failure)",
+                        json!({"helper": n, "field": f, "source": x.get(f).map(|v| readable(v)), "model": y.get(f).map(|v| readable(v))}));
+                }
+            },
+            _ => cx.out.violation(&format!("C16:source:shape:resp:{}:helper-row", n), "an extract helper exists in the source only or in the model only", json!({"helper": n})),
+        }
+    }
+    let src_default = format!("resp={} lua={}", sim.default_arm, lua.default_arm);
+    compared += 1;
+    if sim.default_arm != zc.default_arm || src_default != model_default {
+        cx.out.violation("C16:source:shape:default-arm", "what a command name without a match arm answers differs between the sources or from the model (RESP parsers: Command::Unknown(name); translator: the 'Unknown Redis command' error)",
+            json!({"from_resp": sim.default_arm, "from_resp_zero_copy": zc.default_arm, "translator": lua.default_arm, "model": readable(&model_default)}));
+    }
+    // a field the translator could not read is not compared — and is never skipped silently: it must be in the
+    // reviewed list below (empty on the pinned tree), otherwise it is reported (the differential run still covers
+    // the command; the report says which arm to look at and the list to extend after review)
+    const REVIEWED_UNRECOGNISED: &[&str] = &[];
+    for u in &unrecognised {
+        if !REVIEWED_UNRECOGNISED.contains(&u.as_str()) {
+            cx.out.violation(&format!("C16:source:shape-not-recognised:{}", u), "pattern not recognised: the match arm of this command is written in a form the shape translator does not read, so this field of its descriptor is no longer compared with the other parser / the model's shape table (review the arm, then extend the translator or the reviewed list)",
+                json!({"field": u, "reviewed_list": REVIEWED_UNRECOGNISED}));
+        }
+    }
+    cx.out.count_n("shape:fields-compared", compared);
+    cx.out.count_n("shape:fields-unrecognised", unrecognised.len() as u64);
+    cx.out.extra.insert("shape".into(), json!({
+        "repo": dir, "from_resp_rows": sim.rows.len(), "zero_copy_rows": zc.rows.len(), "translator_rows": lua.rows.len(), "families": sim.families.len(),
+        "model_rows": {"resp": model["R"].len(), "lua": model["L"].len(), "families": model["F"].len()},
+        "fields_compared": compared,
+        "unrecognised": unrecognised,
+        "sample_rows": {"SET": a.get("SET"), "lua:ZADD": by_name(&lua.rows).get("ZADD"), "ACL.LOG": a.get("ACL.LOG")},
     }));
 }
 
@@ -1842,7 +2193,10 @@ fn audit() -> serde_json::Value {
        "covered": "canonical field-by-field rendering of the parsed Command (both parsers); reply AND keyspace with remaining PTTL at four instants for direct / pcall / call; exact error texts; the exact shape of the error redis.call raises (found: mangled by mlua, C16:lua:call-error-text-mangled)",
        "open": "the translator's Command itself is private (observed through its effect)"},
       {"class": 10, "topic": "finding signatures", "covered": "every recorded signature fires only for inputs the model of the current code predicts (tables synced with Lean by LT ops; lua_error_alphabet, lua_unknown_iff_not_in_luaTable, lua_rejects_accepted_only_on)", "open": ""},
-      {"class": 11, "topic": "harness fragility", "covered": "the source files are read from the tree the binary was built against (path taken from harness/Cargo.toml at compile time, not a hard-coded /repo); a failed source scan is itself a violation (C16:coverage:source-scan-failed); duplicate frames are skipped, not fatal", "open": ""}
+      {"class": 11, "topic": "harness fragility", "covered": "the source files are read from the tree the binary was built against (path taken from harness/Cargo.toml at compile time, not a hard-coded /repo); a failed source scan is itself a violation (C16:coverage:source-scan-failed); duplicate frames are skipped, not fatal", "open": ""},
+      {"class": "session-3", "topic": "extensions (task B) against the same classes",
+       "covered": "1: every match arm of the three grammars is TRANSLATED into a shape descriptor and compared with the model's row and with the other RESP parser (a new arm / option arm / guard / literal is a table diff even when no generated frame reaches it); multi-statement scripts (redis.call / redis.pcall mixed, refused / unknown / bad-argument / empty statements, KEYS / ARGV references, nested return tables) generated from the modelled script language. 3 and 5: the integer literals of a differing descriptor and of the arm's conditions (arity bounds, capacity thresholds of extra guards) drive a search with element counts just below / at / above each. 7: effects of earlier statements after a raising one, statements after it. 9: the number of completed statements of a script (trace markers), the exact reply of an EVAL that ends in a raised error (code-word rule), per-field source descriptors incl. every condition and literal of every arm. 10: a nil inside the reply of a translator command has its own signature (the model proves there is none). 11: unread source syntax is `?` = reported unless reviewed (C16:source:shape-not-recognised), too few rows = C16:source:shape-scan-failed; the embedded copy of the model's shape table is compared with the live model on every run",
+       "open": "conditions of the finishing checks (`conds`) have no model counterpart: compared between the two RESP parsers only; Lua scripts outside the modelled shape (loops, tostring, cjson …) are not generated"}
     ])
 }
 
@@ -1953,14 +2307,18 @@ pub fn run(a: &Args) {
     corpus(&mut cx);
     unicode_sweep(&mut cx);
     float_sweep(&mut cx, &mut rng, (a.n / 4).max(200));
+    int_sweep(&mut cx, &mut rng, (a.n / 8).max(200));
+    float_reply_sweep(&mut cx, &mut rng, (a.n / 40).max(200));
     luaconv(&mut cx, &mut rng, (a.n / 10).max(100));
     lua_args(&mut cx);
     eval_plumbing(&mut cx);
     source_enumeration(&mut cx);
+    shape_check(&mut cx);
     unicode_keyword_sweep(&mut cx, &mut rng);
     effect_sweep(&mut cx);
     systematic(&mut cx, &mut rng);
     nonbulk(&mut cx, &mut rng);
+    elem_sweep(&mut cx, &mut rng);
     let mut done = 0u64;
     while done < a.n {
         let sh = rng.pick(SHAPES);
@@ -1973,11 +2331,12 @@ pub fn run(a: &Args) {
         cx.check_frame(&f, "random");
         done += 1;
     }
+    script::scripts(&mut cx, &mut rng, (a.n / 40).max(150));
     source_diff(&mut cx);
     cx.out.extra.insert("commands_unknown_to_lua_translator".into(), json!(cx.lua_unknown));
     cx.out.extra.insert("commands_with_different_lua_error_text".into(), json!(cx.lua_errtext));
     cx.out.extra.insert("commands_with_parser_panic".into(), json!(cx.parse_crash));
     cx.out.extra.insert("audit".into(), audit());
     cx.out.extra.insert("redis_call_error_shape_samples".into(), json!(cx.call_error_samples));
-    cx.out.finish("case = one command frame (array of bulk strings) sent through from_resp, from_resp_zero_copy and redis.pcall on primed twin executors; drawn from (i) a fixed corpus, (ii) every command name of the three grammars x 4 letter-case modes (incl. non-ASCII characters that upper-case to ASCII) x arity 0..max+2, every option keyword in every position, every numeric slot x boundary numerals, empty / non-UTF-8 bytes in every slot, (iii) random structured frames with mutations; plus Lua value literals for lua_to_resp and float literals; distinct by frame bytes; non-trivial iff the command name is known to from_resp");
+    cx.out.finish("case = one command frame (array of bulk strings) sent through from_resp, from_resp_zero_copy and redis.pcall on primed twin executors; drawn from (i) a fixed corpus, (ii) every command name of the three grammars x 4 letter-case modes (incl. non-ASCII characters that upper-case to ASCII) x arity 0..max+2, every option keyword in every position, every numeric slot x boundary numerals, empty / non-UTF-8 bytes in every slot, (iii) random structured frames with mutations; plus Lua value literals for lua_to_resp, float and integer literals, shape-guided frames, and EVAL scripts generated from the modelled script language (distinct by source text); distinct by frame bytes; non-trivial iff the command name is known to from_resp");
 }
